@@ -199,15 +199,25 @@ func FloodOp(fl *Flood, i int) ops.Op {
 		tgt = &inner
 	}
 	a := append([]int(nil), tgt.A...)
+	stride := fl.Stride
+	if stride == 0 {
+		// hot key: four cold neighbours first (calls 0..3 = the template moved on by 1..4), then the template itself
+		// for the rest of the flood
+		if i < 4 {
+			i, stride = i+1, 1
+		} else {
+			i = 0
+		}
+	}
 	switch fl.Unit {
 	case "year":
-		y := (a[0] - 1 + i*fl.Stride) % 9999
+		y := (a[0] - 1 + i*stride) % 9999
 		if y < 0 {
 			y += 9999
 		}
 		a[0] = y + 1
 	case "day":
-		t := time.Date(a[0], time.Month(a[1]), a[2], 0, 0, 0, 0, time.UTC).AddDate(0, 0, i*fl.Stride)
+		t := time.Date(a[0], time.Month(a[1]), a[2], 0, 0, 0, 0, time.UTC).AddDate(0, 0, i*stride)
 		a[0], a[1], a[2] = t.Year(), int(t.Month()), t.Day()
 	}
 	tgt.A = a
